@@ -20,6 +20,8 @@ type vService struct {
 	types.ServiceKeeper
 	startFails bool
 	started    []string
+	bindings   *vStore  // the bindings of the random service, as the service module's iterator yields them
+	chosen     []string // providers handed to CreateRequestContext
 }
 
 func (s *vService) RegisterResponseCallback(string, service.ResponseCallback) error { return nil }
@@ -32,7 +34,18 @@ func (s *vService) StartRequestContext(ctx sdk.Context, id tmbytes.HexBytes, con
 	return nil
 }
 func (s *vService) ServiceBindingsIterator(ctx sdk.Context, name string) storetypes.Iterator {
-	return nil
+	if s.bindings == nil {
+		return nil
+	}
+	return s.bindings.Iterator(nil, nil)
+}
+func (s *vService) GetParams(ctx sdk.Context) servicetypes.Params { return servicetypes.DefaultParams() }
+func (s *vService) CreateRequestContext(ctx sdk.Context, serviceName string, providers []sdk.AccAddress, consumer sdk.AccAddress, input string,
+	feeCap sdk.Coins, timeout int64, repeated bool, freq uint64, total int64, state service.RequestContextState, threshold uint32, module string) (tmbytes.HexBytes, error) {
+	for _, p := range providers {
+		s.chosen = append(s.chosen, p.String())
+	}
+	return tmbytes.HexBytes(bytes.Repeat([]byte{7}, 32)), nil
 }
 
 // C18/C13: a request made at height h0 with interval n sits under (h0+n, id); the begin-block of
@@ -66,9 +79,12 @@ func VerifC18_BeginBlock() {
 	verifAssume(now > 0 && now < 1<<40)
 	hdr := e.ctx.BlockHeader()
 	hdr.Height, hdr.Time, hdr.AppHash = due+1, time.Unix(now, 0), []byte("app-hash")
-	ctx := e.ctx.WithBlockHeader(hdr)
+	if verifChoice("emptyAppHash", 2) == 1 {
+		hdr.AppHash = nil // e.g. the first block after genesis
+	}
+	ctx := e.ctx.WithBlockHeader(hdr).WithHeaderHash([]byte("hash-of-the-fulfilling-block"))
 	// nothing happens before the due block
-	early := e.ctx.WithBlockHeader(hdr).WithBlockHeight(due)
+	early := ctx.WithBlockHeight(due)
 	if interval > 0 {
 		BeginBlocker(early, k)
 		_, errEarly := k.GetRandom(early, idA)
@@ -98,4 +114,53 @@ func VerifC18_BeginBlock() {
 	BeginBlocker(ctx, k)
 	ra2, _ := k.GetRandom(ctx, idA)
 	verifAssert(ra2.Value == ra.Value && ra2.Height == ra.Height, "a result can be read back unchanged")
+}
+
+// C11 (repeated runs in one process and a fresh process): the provider chosen for an oracle-seeded random
+// request is a function of the block data and the requester only - executing the same request again on
+// the same state, in the same process or in a new one, picks the same provider.
+func verifProc_c11random() []int64 {
+	e := newVEnv(types.StoreKey, 40)
+	svc := &vService{bindings: &vStore{}}
+	for i := byte(0); i < 5; i++ {
+		b := servicetypes.ServiceBinding{ServiceName: types.ServiceName, Provider: vAddr(20 + i).String(), Available: true}
+		svc.bindings.Set([]byte{i}, e.cdc.MustMarshal(&b))
+	}
+	k := keeper.NewKeeper(e.cdc, e.key, e.bank, svc)
+	hdr := e.ctx.BlockHeader()
+	hdr.Time, hdr.AppHash = time.Unix(1700000000, 0), []byte("app-hash")
+	ctx := e.ctx.WithBlockHeader(hdr)
+	var fp []int64
+	for round := 0; round < 4; round++ {
+		for _, who := range []sdk.AccAddress{vAddr(1), vAddr(2)} {
+			svc.chosen = nil
+			if _, err := k.RequestService(ctx, who, nil); err != nil {
+				verifFail("oracle request refused")
+			}
+			for i := byte(0); i < 5; i++ {
+				if len(svc.chosen) == 1 && svc.chosen[0] == vAddr(20+i).String() {
+					fp = append(fp, int64(i))
+				}
+			}
+		}
+	}
+	return fp
+}
+
+func init() { verifProcRegistry["c11random"] = verifProc_c11random }
+
+func VerifC11_RandomProviderChoice() {
+	verifExpect("compared")
+	fp1 := verifProc_c11random()
+	fp2 := verifInFreshProcess("c11random")
+	verifCover("compared")
+	verifAssert(len(fp1) == 8 && len(fp2) == 8, "every request picks exactly one provider")
+	for i := 2; i < len(fp1); i++ {
+		verifAssert(fp1[i] == fp1[i%2], "executing the same request again on the same state picks the same provider")
+	}
+	same := len(fp1) == len(fp2)
+	for i := 0; same && i < len(fp1); i++ {
+		same = fp1[i] == fp2[i]
+	}
+	verifAssert(same, "a restarted process picks the same providers")
 }
